@@ -34,11 +34,16 @@ Fixpoint expr_ok (bound : bool) (e : expr) : bool :=
   | EBin _ l r => expr_ok bound l && expr_ok bound r
   | EUn _ x => expr_ok bound x
   | ETmpl ps => forallb (expr_ok bound) ps
-  | EJoin t | EWrap t | EParen t => expr_ok bound t
+  | EJoin t => expr_ok bound t && match t with EFor _ _ _ _ _ _ _ => true | _ => false end
+  | EWrap t | EParen t => expr_ok bound t
   end.
 
 Definition is_some {A} (o : option A) : bool := match o with Some _ => true | None => false end.
 Definition anon_good (a : option val) : Prop := forall v, a = Some v -> good v = true.
+
+(* EJoin (TemplateJoinExpr) is only ever built by the parser around a [for] expression; the
+   restriction matters: with a null tuple Go panics and the model answers an unknown string
+   (see [join_null_not_modelled]). *)
 
 (* contract for the functions of the context: wholly known arguments give a wholly known
    result; a parameter of dynamic type that accepts null also accepts dynamically typed
@@ -318,30 +323,456 @@ Qed.
 Lemma lift_marks_good m o r : lift_marks m o = OOk r -> exists r', o = OOk r' /\ r = with_marks r' m.
 Proof. destruct o; simpl; intros E; inversion E. eexists. split; reflexivity. Qed.
 
+Local Strategy opaque [equals val_size unmark_deep deep_marks].
+Definition eq_res (a b : val) : ores :=
+  equals (S (val_size (unmark_deep a) + val_size (unmark_deep b))) (unmark_deep a) (unmark_deep b).
+Lemma call_binop_eq a b :
+  call_binop OpEq a b = lift_marks (marks_union (deep_marks a) (deep_marks b)) (eq_res a b).
+Proof. reflexivity. Qed.
+Lemma call_binop_ne a b :
+  call_binop OpNe a b = lift_marks (marks_union (deep_marks a) (deep_marks b))
+    (match eq_res a b with OOk (VBool x) => OOk (VBool (negb x)) | _ => eq_res a b end).
+Proof. reflexivity. Qed.
+
 Lemma call_binop_good op a b r :
   good a = true -> good b = true -> is_marked a = false -> is_marked b = false ->
   (binop_param op <> TDyn -> type_of a = binop_param op /\ type_of b = binop_param op) ->
   call_binop op a b = OOk r -> good r = true.
 Proof.
   intros Ga Gb Ma Mb T E.
-  assert (EqCase : forall o : binop,
-            lift_marks (marks_union (deep_marks a) (deep_marks b))
-              (match o, equals (S (val_size (unmark_deep a) + val_size (unmark_deep b))) (unmark_deep a) (unmark_deep b) with
-               | OpNe, OOk (VBool x) => OOk (VBool (negb x))
-               | _, r0 => r0 end) = OOk r -> good r = true).
-  { intros o E'. apply lift_marks_good in E' as [r' [E' ->]]. apply good_with_marks.
-    destruct (equals (S (val_size (unmark_deep a) + val_size (unmark_deep b))) (unmark_deep a) (unmark_deep b)) as [v| |] eqn:Ee.
-    - pose proof (equals_good _ _ _ _ (unmark_deep_good _ Ga) (unmark_deep_good _ Gb)
-                    (unmark_deep_not_marked a) (unmark_deep_not_marked b) Ee) as Gv.
-      destruct o, v; simpl in E'. Show. all: inversion E'; subst; try exact Gv; reflexivity.
-    - destruct o; discriminate.
-    - destruct o; discriminate. }
-  destruct op; try (apply (EqCase OpEq); exact E); try (apply (EqCase OpNe); exact E);
-    destruct (T ltac:(discriminate)) as [Ta Tb]; simpl in Ta, Tb.
+  assert (Heq : forall v, eq_res a b = OOk v -> good v = true).
+  { intros v Ee. apply (equals_good _ _ _ _ (unmark_deep_good _ Ga) (unmark_deep_good _ Gb)
+                          (unmark_deep_not_marked a) (unmark_deep_not_marked b) Ee). }
+  destruct op.
+  3: { rewrite call_binop_eq in E.
+       destruct (eq_res a b) as [v|e|]; simpl in E; inversion E. apply good_with_marks, Heq. reflexivity. }
+  3: { rewrite call_binop_ne in E.
+       destruct (eq_res a b) as [v|e|]; [destruct v|..]; simpl in E; inversion E; apply good_with_marks;
+         solve [apply Heq; reflexivity | reflexivity]. }
+  all: destruct (T ltac:(simpl; discriminate)) as [Ta Tb]; simpl in Ta, Tb; clear Heq.
   1,2: destruct (good_bool_shape a Ga Ma Ta) as [[x ->]| ->];
-       destruct (good_bool_shape b Gb Mb Tb) as [[y ->]| ->]; simpl in E; inversion E; reflexivity.
+       destruct (good_bool_shape b Gb Mb Tb) as [[y ->]| ->]; cbn [call_binop] in E; inversion E; reflexivity.
   all: destruct (good_num_shape a Ga Ma Ta) as [[x ->]| ->];
-       destruct (good_num_shape b Gb Mb Tb) as [[y ->]| ->]; simpl in E; try discriminate;
+       destruct (good_num_shape b Gb Mb Tb) as [[y ->]| ->]; cbn [call_binop] in E; try discriminate;
        try (inversion E; reflexivity).
   all: match type of E with match ?o with _ => _ end = _ => destruct o end; inversion E; reflexivity.
 Qed.
+
+(* ---- the induction --------------------------------------------------------------------- *)
+Local Strategy opaque [convert unify_n].
+Notation ev_ := (eval_with index).
+
+Definition KI (f : nat) : Prop := forall c anon e v ds,
+  ctx_good c -> anon_good anon -> expr_ok (is_some anon) e = true ->
+  ev_ f c anon e = (v, ds) -> diag_ok ds = true -> good v = true.
+
+Lemma conv_prim_shape v t r :
+  good v = true -> conv v t = COk r -> has_dyn t = false ->
+  good (fst (unmark r)) = true /\ is_marked (fst (unmark r)) = false /\ type_of (fst (unmark r)) = t.
+Proof.
+  intros G E Hd. pose proof (conv_good _ _ _ G E) as Gr. pose proof (conv_type _ _ _ E Hd) as Tr.
+  destruct (good_unmark_fst r Gr) as [G1 G2]. repeat split; try assumption.
+  rewrite unmark_type. exact Tr.
+Qed.
+
+Lemma kiko_un f op e' : KI f -> forall c anon v ds,
+  ctx_good c -> anon_good anon -> expr_ok (is_some anon) (EUn op e') = true ->
+  ev_ (S f) c anon (EUn op e') = (v, ds) -> diag_ok ds = true -> good v = true.
+Proof.
+  intros IH c anon v ds C A Ok E D. cbn [eval_with] in E. simpl in Ok.
+  destruct (ev_ f c anon e') as [gv eds] eqn:Ee.
+  destruct (conv gv (unop_param op)) as [cv|ce|] eqn:Ec.
+  - destruct (has_errors eds) eqn:He.
+    + injection E as <- <-. unfold diag_ok in D. rewrite He in D. discriminate.
+    + destruct (unmark cv) as [vu vm] eqn:Eu.
+      destruct (call_unop op vu) as [r|oe|] eqn:Eo.
+      * injection E as <- <-. apply good_with_marks.
+        pose proof (IH c anon e' gv eds C A Ok Ee D) as Ggv.
+        assert (Hd : has_dyn (unop_param op) = false) by (destruct op; reflexivity).
+        destruct (conv_prim_shape _ _ _ Ggv Ec Hd) as [G1 [G2 G3]]. rewrite Eu in *. simpl in *.
+        apply (call_unop_good op vu r G1 G2 G3 Eo).
+      * injection E as <- <-. rewrite diag_ok_app in D. apply andb_true_iff in D as [_ D]. discriminate.
+      * injection E as <- <-. rewrite diag_ok_app in D. apply andb_true_iff in D as [_ D]. discriminate.
+  - injection E as <- <-. rewrite diag_ok_app in D. apply andb_true_iff in D as [_ D]. discriminate.
+  - injection E as <- <-. rewrite diag_ok_app in D. apply andb_true_iff in D as [_ D]. discriminate.
+Qed.
+
+Lemma binop_param_nodyn op : binop_param op <> TDyn -> has_dyn (binop_param op) = false.
+Proof. destruct op; simpl; congruence. Qed.
+
+Lemma conv_operand_facts v op r u m :
+  good v = true -> conv v (binop_param op) = COk r -> unmark r = (u, m) ->
+  good u = true /\ is_marked u = false /\ (binop_param op <> TDyn -> type_of u = binop_param op).
+Proof.
+  intros G E U. pose proof (conv_good _ _ _ G E) as Gr.
+  destruct (good_unmark _ _ _ Gr U) as [G1 G2]. repeat split; try assumption.
+  intros Hd. pose proof (conv_type _ _ _ E (binop_param_nodyn op Hd)) as T.
+  rewrite <- (unmark_type r), U in T. exact T.
+Qed.
+
+Lemma kiko_bin f op l r : KI f -> forall c anon v ds,
+  ctx_good c -> anon_good anon -> expr_ok (is_some anon) (EBin op l r) = true ->
+  ev_ (S f) c anon (EBin op l r) = (v, ds) -> diag_ok ds = true -> good v = true.
+Proof.
+  intros IH c anon v ds C A Ok E D. cbn [eval_with] in E. simpl in Ok.
+  apply andb_true_iff in Ok as [Okl Okr].
+  destruct (ev_ f c anon l) as [glv lds] eqn:El.
+  destruct (ev_ f c anon r) as [grv rds] eqn:Er.
+  destruct (has_unsupported lds || has_unsupported rds); [dead E D|].
+  destruct (conv glv (binop_param op)) as [lv|lce|] eqn:Ecl.
+  2,3: destruct (conv grv (binop_param op)); dead E D.
+  destruct (conv grv (binop_param op)) as [rv|rce|] eqn:Ecr.
+  2,3: dead E D.
+  destruct (unmark lv) as [lu lm] eqn:Ul. destruct (unmark rv) as [ru rm] eqn:Ur.
+  assert (Fl : diag_ok lds = true ->
+               good lu = true /\ is_marked lu = false /\ (binop_param op <> TDyn -> type_of lu = binop_param op)).
+  { intros Dl. apply (conv_operand_facts glv op lv lu lm (IH c anon l glv lds C A Okl El Dl) Ecl Ul). }
+  assert (Fr : diag_ok rds = true ->
+               good ru = true /\ is_marked ru = false /\ (binop_param op <> TDyn -> type_of ru = binop_param op)).
+  { intros Dr. apply (conv_operand_facts grv op rv ru rm (IH c anon r grv rds C A Okr Er Dr) Ecr Ur). }
+  assert (Full : (let ds0 := lds ++ rds in
+                  if has_errors ds0 then (with_marks (VUnk (binop_type op) rf_none) (marks_union lm rm), ds0)
+                  else match call_binop op lu ru with
+                       | OOk res => (with_marks res (marks_union lm rm), ds0)
+                       | OErr _ => (VUnk (binop_type op) rf_none, ds0 ++ [derr S_OperationFailed []])
+                       | OUnsupported => (VUnk (binop_type op) rf_none, ds0 ++ [dunsupported])
+                       end) = (v, ds) -> good v = true).
+  { cbv zeta. intros E'. destruct (has_errors (lds ++ rds)) eqn:He.
+    - injection E' as <- <-. rewrite (diag_ok_has_errors _ He) in D. discriminate.
+    - destruct (call_binop op lu ru) as [res|oe|] eqn:Eo; [|dead E' D|dead E' D].
+      injection E' as <- <-. rewrite diag_ok_app in D. apply andb_true_iff in D as [Dl Dr].
+      destruct (Fl Dl) as [G1 [G2 G3]]. destruct (Fr Dr) as [G4 [G5 G6]].
+      apply good_with_marks. apply (call_binop_good op lu ru res G1 G4 G2 G5); [|exact Eo].
+      intros Hd. split; auto. }
+  destruct op; try (apply Full; exact E).
+  - (* OpOr *)
+    destruct (is_known lu) eqn:Kl; destruct (is_known ru) eqn:Kr; cbn [negb andb] in E;
+      repeat match type of E with
+             | (match (if ?c then _ else _) with _ => _ end) = _ => destruct c eqn:?
+             end;
+      try (apply Full; exact E);
+      injection E as <- <-; apply good_with_marks; try reflexivity; exfalso.
+    all: try (destruct (Fl D) as [G _]; apply good_is_known in G; congruence).
+    all: try (destruct (Fr D) as [G _]; apply good_is_known in G; congruence).
+  - (* OpAnd *)
+    destruct (is_known lu) eqn:Kl; destruct (is_known ru) eqn:Kr; cbn [negb andb] in E;
+      repeat match type of E with
+             | (match (if ?c then _ else _) with _ => _ end) = _ => destruct c eqn:?
+             end;
+      try (apply Full; exact E);
+      injection E as <- <-; apply good_with_marks; try reflexivity; exfalso.
+    all: try (destruct (Fl D) as [G _]; apply good_is_known in G; congruence).
+    all: try (destruct (Fr D) as [G _]; apply good_is_known in G; congruence).
+Qed.
+
+Lemma kiko_cond f ce te fe : KI f -> forall c anon v ds,
+  ctx_good c -> anon_good anon -> expr_ok (is_some anon) (ECond ce te fe) = true ->
+  ev_ (S f) c anon (ECond ce te fe) = (v, ds) -> diag_ok ds = true -> good v = true.
+Proof.
+  intros IH c anon v ds C A Ok E D. cbn [eval_with] in E. simpl in Ok.
+  apply andb_true_iff in Ok as [Ok Okf]. apply andb_true_iff in Ok as [Okc Okt].
+  destruct (ev_ f c anon te) as [tv tds] eqn:Et.
+  destruct (ev_ f c anon fe) as [fv fds] eqn:Ef.
+  destruct (has_unsupported tds || has_unsupported fds); [dead E D|].
+  match type of E with
+  | match ?u with _ => _ end = _ => destruct u as [[[[rt tconv] fconv]|]|[|]]
+  end; try (dead E D).
+  destruct (ev_ f c anon ce) as [cv cds] eqn:Ec.
+  destruct (is_null cv) eqn:Nc; [dead E D|].
+  destruct (unmark cv) as [cu cm] eqn:Uc.
+  destruct (unmark tv) as [tu tm] eqn:Ut.
+  destruct (unmark fv) as [fu fm] eqn:Uf.
+  destruct (is_known cu) eqn:Kc; cbn [negb] in E.
+  - destruct (conv cu TBool) as [cb| |] eqn:Ecb; try (dead E D).
+    assert (Pick : forall bv bds (nc : bool) bu bm, ev_ f c anon bv = (bu, bds) -> expr_ok (is_some anon) bv = true ->
+              forall buu, unmark bu = (buu, bm) ->
+              (if nc then
+                 match conv buu rt with
+                 | COk r => (with_marks r (marks_unions [cm; tm; fm]), cds ++ bds)
+                 | CErr ce0 => (with_marks (VUnk rt rf_none) (marks_unions [cm; tm; fm]),
+                                cds ++ bds ++ [derr S_InconsistentCond [FConv ce0]])
+                 | CUnsupported => (dyn_val, cds ++ bds ++ [dunsupported])
+                 end
+               else (with_marks buu (marks_unions [cm; tm; fm]), cds ++ bds)) = (v, ds) -> good v = true).
+    { intros bv bds nc bu bm Eb Okb buu Ub E'.
+      assert (Gb : diag_ok bds = true -> good buu = true).
+      { intros Db. pose proof (IH c anon bv bu bds C A Okb Eb Db) as Gbu.
+        apply (good_unmark _ _ _ Gbu Ub). }
+      destruct nc.
+      - destruct (conv buu rt) as [r| |] eqn:Er; try (dead E' D).
+        injection E' as <- <-. rewrite diag_ok_app in D. apply andb_true_iff in D as [_ Db].
+        apply good_with_marks. apply (conv_good _ _ _ (Gb Db) Er).
+      - injection E' as <- <-. rewrite diag_ok_app in D. apply andb_true_iff in D as [_ Db].
+        apply good_with_marks. apply (Gb Db). }
+    destruct cb as [| |[|]| | | | | | | |]; try (dead E D).
+    + apply (Pick te tds tconv tv tm Et Okt tu Ut E).
+    + apply (Pick fe fds fconv fv fm Ef Okf fu Uf E).
+  - exfalso.
+    match type of E with
+    | ?X = _ => change X with (cond_unk rt cds (marks_unions [cm; tm; fm]) tu fu) in E
+    end.
+    pose proof (f_equal snd E) as S. rewrite cond_unk_snd in S. simpl in S. subst ds.
+    pose proof (IH c anon ce cv cds C A Okc Ec D) as Gcv.
+    destruct (good_unmark _ _ _ Gcv Uc) as [Gcu _]. apply good_is_known in Gcu. congruence.
+Qed.
+
+Lemma kiko_tuple f es : KI f -> forall c anon v ds,
+  ctx_good c -> anon_good anon -> expr_ok (is_some anon) (ETuple es) = true ->
+  ev_ (S f) c anon (ETuple es) = (v, ds) -> diag_ok ds = true -> good v = true.
+Proof.
+  intros IH c anon v ds C A Ok E D. cbn [eval_with] in E. simpl in Ok.
+  injection E as <- <-. apply good_VTuple. rewrite diag_ok_concat in D.
+  rewrite forallb_Forall in Ok. rewrite forallb_Forall in D. rewrite Forall_forall in *.
+  intros x Hx. apply in_map_iff in Hx as [[v' d'] [<- Hin]]. simpl.
+  apply in_map_iff in Hin as [e [Ee Hin]].
+  apply (IH c anon e v' d' C A (Ok e Hin) Ee). apply D.
+  apply in_map_iff. exists (v', d'). split; [reflexivity|]. apply in_map_iff. exists e. split; assumption.
+Qed.
+
+Lemma kiko_index f a b : KI f -> forall c anon v ds,
+  ctx_good c -> anon_good anon -> expr_ok (is_some anon) (EIndex a b) = true ->
+  ev_ (S f) c anon (EIndex a b) = (v, ds) -> diag_ok ds = true -> good v = true.
+Proof.
+  intros IH c anon v ds C A Ok E D. cbn [eval_with] in E. simpl in Ok.
+  apply andb_true_iff in Ok as [Oka Okb].
+  destruct (ev_ f c anon a) as [cv cds] eqn:Ea.
+  destruct (ev_ f c anon b) as [kv kds] eqn:Eb.
+  destruct (index cv kv) as [r ids] eqn:Ei.
+  injection E as <- <-. rewrite !diag_ok_app in D.
+  apply andb_true_iff in D as [D1 D]. apply andb_true_iff in D as [D2 D3].
+  apply (index_good cv kv r ids (IH c anon a cv cds C A Oka Ea D1) (IH c anon b kv kds C A Okb Eb D2) Ei D3).
+Qed.
+
+Lemma kiko_reltrav f src steps : KI f -> forall c anon v ds,
+  ctx_good c -> anon_good anon -> expr_ok (is_some anon) (ERelTrav src steps) = true ->
+  ev_ (S f) c anon (ERelTrav src steps) = (v, ds) -> diag_ok ds = true -> good v = true.
+Proof.
+  intros IH c anon v ds C A Ok E D. cbn [eval_with] in E. simpl in Ok.
+  apply andb_true_iff in Ok as [Oks Okst].
+  destruct (ev_ f c anon src) as [sv sds] eqn:Es.
+  destruct (traverse_rel steps sv []) as [r rds] eqn:Et.
+  injection E as <- <-. rewrite diag_ok_app in D. apply andb_true_iff in D as [D1 D2].
+  apply (traverse_rel_good steps sv [] r rds Okst (IH c anon src sv sds C A Oks Es D1) Et D2).
+Qed.
+
+Lemma kiko_objkey f w force : KI f -> forall c anon v ds,
+  ctx_good c -> anon_good anon -> expr_ok (is_some anon) (EObjKey w force) = true ->
+  ev_ (S f) c anon (EObjKey w force) = (v, ds) -> diag_ok ds = true -> good v = true.
+Proof.
+  intros IH c anon v ds C A Ok E D. cbn [eval_with] in E. simpl in Ok.
+  destruct force; cbn [negb] in E; [apply (IH c anon w v ds C A Ok E D)|].
+  destruct w; try (destruct (literal_name _) eqn:L;
+                   [injection E as <- <-; reflexivity|apply (IH c anon _ v ds C A Ok E D)]).
+  destruct steps; [|dead E D].
+  simpl in E. injection E as <- <-. reflexivity.
+Qed.
+
+(* ---- object constructor ------------------------------------------------------------------ *)
+Lemma assoc_set_good k v (l : list (list Z * val)) :
+  good v = true -> Forall (fun p => good (snd p) = true) l ->
+  Forall (fun p => good (snd p) = true) (assoc_set k v l).
+Proof.
+  intros Gv. induction l as [|[k' v'] r IH]; intros F; simpl.
+  - constructor; [exact Gv|constructor].
+  - inversion F; subst. destruct (str_eqb k k'); [constructor; assumption|].
+    destruct (str_ltb k k'); [constructor; [exact Gv|exact F]|]. constructor; auto.
+Qed.
+
+Definition obj_inv (st : list (list Z * val) * list marks * bool * list diag) : Prop :=
+  let '(vals, mks, known, ds) := st in
+  known = true /\ Forall (fun p => good (snd p) = true) vals.
+Definition obj_ds (st : list (list Z * val) * list marks * bool * list diag) : list diag :=
+  let '(_, _, _, ds) := st in ds.
+
+Lemma fold_inv {S I} (step : S -> I -> S) (dsof : S -> list diag) (P : S -> Prop) :
+  (forall st it, diag_ok (dsof (step st it)) = true -> diag_ok (dsof st) = true) ->
+  forall items : list I,
+  (forall st it, In it items -> diag_ok (dsof (step st it)) = true -> P st -> P (step st it)) ->
+  forall st, diag_ok (dsof (fold_left step items st)) = true ->
+  diag_ok (dsof st) = true /\ (P st -> P (fold_left step items st)).
+Proof.
+  intros Hd items. induction items as [|it r IH]; intros Hp st D; simpl in *.
+  - split; [exact D|auto].
+  - destruct (IH (fun st it Hin => Hp st it (or_intror Hin)) (step st it) D) as [D1 P1].
+    split; [apply (Hd st it D1)|]. intros Pst. apply P1. apply Hp; auto.
+Qed.
+
+Lemma kiko_obj f items : KI f -> forall c anon v ds,
+  ctx_good c -> anon_good anon -> expr_ok (is_some anon) (EObj items) = true ->
+  ev_ (S f) c anon (EObj items) = (v, ds) -> diag_ok ds = true -> good v = true.
+Proof.
+  intros IH c anon v ds C A Ok E D. cbn [eval_with] in E. simpl in Ok.
+  match type of E with
+  | context [fold_left ?stp items ?init] => set (step := stp) in *; set (st0 := init) in *
+  end.
+  assert (Hstep : forall st it, diag_ok (obj_ds (step st it)) = true ->
+            diag_ok (obj_ds st) = true /\
+            (expr_ok (is_some anon) (fst it) && expr_ok (is_some anon) (snd it) = true -> obj_inv st -> obj_inv (step st it))).
+  { intros [[[vals mks] known] sds] [ke ve] Ds. unfold step in Ds |- *. cbn [fst snd] in *.
+    destruct (ev_ f c anon ke) as [k kds] eqn:Ek. destruct (ev_ f c anon ve) as [vv vds] eqn:Ev.
+    assert (Dall : diag_ok (sds ++ kds ++ vds) = true).
+    { destruct (has_errors kds); [exact Ds|]. destruct (is_null k).
+      - simpl in Ds. rewrite diag_ok_app in Ds. apply andb_true_iff in Ds as [Ds _]. exact Ds.
+      - destruct (unmark k) as [ku km]. destruct (conv ku TStr) as [ks| |].
+        + destruct ks; exact Ds.
+        + simpl in Ds. rewrite diag_ok_app in Ds. apply andb_true_iff in Ds as [Ds _]. exact Ds.
+        + simpl in Ds. rewrite diag_ok_app in Ds. apply andb_true_iff in Ds as [Ds _]. exact Ds. }
+    rewrite !diag_ok_app in Dall. apply andb_true_iff in Dall as [D0 Dall].
+    apply andb_true_iff in Dall as [Dk Dv]. split; [exact D0|].
+    intros Oki [Kn Fv]. apply andb_true_iff in Oki as [Okk Okv].
+    pose proof (IH c anon ke k kds C A Okk Ek Dk) as Gk.
+    pose proof (IH c anon ve vv vds C A Okv Ev Dv) as Gvv.
+    destruct (has_errors kds) eqn:Hek; [rewrite (diag_ok_has_errors _ Hek) in Dk; discriminate|].
+    destruct (is_null k) eqn:Nk.
+    { simpl in Ds. rewrite !diag_ok_app in Ds. rewrite andb_false_r in Ds. discriminate. }
+    destruct (unmark k) as [ku km] eqn:Uk. destruct (good_unmark _ _ _ Gk Uk) as [Gku Mku].
+    destruct (conv ku TStr) as [ks| |] eqn:Eks.
+    - pose proof (conv_good _ _ _ Gku Eks) as Gks. pose proof (conv_type _ _ _ Eks eq_refl) as Tks.
+      destruct ks; try discriminate; simpl.
+      + split; [exact Kn|]. apply assoc_set_good; assumption.
+      + exfalso. pose proof (conv_null_inv _ _ _ Eks Mku eq_refl) as Nu.
+        rewrite (is_null_unmark _ _ _ Uk) in Nk. congruence.
+      + exfalso. (* VMark: conv of an unmarked good value *)
+        clear -Eks Mku Gks Tks Gku. unfold conv in Eks. apply convert_inv in Eks.
+        inversion Eks; subst; try discriminate.
+    - simpl in Ds. rewrite !diag_ok_app in Ds. rewrite andb_false_r in Ds. discriminate.
+    - simpl in Ds. rewrite !diag_ok_app in Ds. rewrite andb_false_r in Ds. discriminate. }
+  destruct (fold_left step items st0) as [[[vals mks] known] fds] eqn:Ef.
+  assert (Dfin : diag_ok (obj_ds (fold_left step items st0)) = true).
+  { rewrite Ef. simpl. destruct (negb known); injection E as _ <-; exact D. }
+  destruct (fold_inv step obj_ds obj_inv (fun st it Ds => proj1 (Hstep st it Ds)) items) with (st := st0)
+    as [_ Pf]; [|exact Dfin|].
+  - intros st it Hin Ds Pst. apply (proj2 (Hstep st it Ds)); [|exact Pst].
+    rewrite forallb_Forall in Ok. rewrite Forall_forall in Ok. apply (Ok it Hin).
+  - rewrite Ef in Pf. destruct Pf as [Kn Fv]; [split; [reflexivity|constructor]|].
+    subst known. cbn [negb] in E. injection E as <- <-. apply good_with_marks. apply good_VObj. exact Fv.
+Qed.
+
+(* ---- templates --------------------------------------------------------------------------- *)
+Definition tmpl_ds (st : list Z * bool * marks * list diag) : list diag := let '(_, _, _, ds) := st in ds.
+Definition tmpl_inv (st : list Z * bool * marks * list diag) : Prop := let '(_, known, _, _) := st in known = true.
+
+Lemma conv_str_shape u ks : good u = true -> is_marked u = false -> null_shape u = false ->
+  conv u TStr = COk ks -> exists s, ks = VStr s.
+Proof.
+  intros G M N E. pose proof (conv_good _ _ _ G E) as Gks. pose proof (conv_type _ _ _ E eq_refl) as Tks.
+  destruct ks; try discriminate.
+  - eexists. reflexivity.
+  - pose proof (conv_null_inv _ _ _ E M eq_refl). congruence.
+  - exfalso. unfold conv in E. apply convert_inv in E. inversion E; subst; try discriminate.
+Qed.
+
+Lemma kiko_tmpl f parts : KI f -> forall c anon v ds,
+  ctx_good c -> anon_good anon -> expr_ok (is_some anon) (ETmpl parts) = true ->
+  ev_ (S f) c anon (ETmpl parts) = (v, ds) -> diag_ok ds = true -> good v = true.
+Proof.
+  intros IH c anon v ds C A Ok E D. cbn [eval_with] in E. simpl in Ok.
+  match type of E with
+  | context [fold_left ?stp parts ?init] => set (step := stp) in *; set (st0 := init) in *
+  end.
+  assert (Hstep : forall st p, diag_ok (tmpl_ds (step st p)) = true ->
+            diag_ok (tmpl_ds st) = true /\
+            (expr_ok (is_some anon) p = true -> tmpl_inv st -> tmpl_inv (step st p))).
+  { intros [[[buf known] mk] sds] p Ds. unfold step in Ds |- *.
+    destruct (ev_ f c anon p) as [pv pds] eqn:Ep.
+    assert (Dall : diag_ok (sds ++ pds) = true).
+    { destruct (is_null pv).
+      - cbn [tmpl_ds] in Ds. rewrite diag_ok_app in Ds. apply andb_true_iff in Ds as [Ds _]. exact Ds.
+      - destruct (unmark pv) as [pu pm]. destruct (negb (is_known pv)); [exact Ds|].
+        destruct (conv pu TStr) as [ks| |].
+        + destruct ks; try (cbn [tmpl_ds] in Ds; rewrite diag_ok_app in Ds; apply andb_true_iff in Ds as [Ds _]; exact Ds).
+          destruct (known && negb (has_errors (sds ++ pds))); exact Ds.
+        + cbn [tmpl_ds] in Ds. rewrite diag_ok_app in Ds. apply andb_true_iff in Ds as [Ds _]. exact Ds.
+        + cbn [tmpl_ds] in Ds. rewrite diag_ok_app in Ds. apply andb_true_iff in Ds as [Ds _]. exact Ds. }
+    rewrite diag_ok_app in Dall. apply andb_true_iff in Dall as [D0 Dp]. split; [exact D0|].
+    intros Okp Kn. simpl in Kn. subst known.
+    pose proof (IH c anon p pv pds C A Okp Ep Dp) as Gpv.
+    destruct (is_null pv) eqn:Np.
+    { cbn [tmpl_ds] in Ds. rewrite !diag_ok_app in Ds. rewrite andb_false_r in Ds. discriminate. }
+    destruct (unmark pv) as [pu pm] eqn:Up. destruct (good_unmark _ _ _ Gpv Up) as [Gpu Mpu].
+    rewrite (good_is_known _ Gpv). cbn [negb].
+    rewrite (is_null_unmark _ _ _ Up) in Np.
+    destruct (conv pu TStr) as [ks| |] eqn:Eks.
+    - destruct (conv_str_shape pu ks Gpu Mpu Np Eks) as [s ->].
+      destruct (true && negb (has_errors (sds ++ pds))); reflexivity.
+    - rewrite (good_is_known _ Gpv) in Ds. cbn [negb tmpl_ds] in Ds.
+      rewrite !diag_ok_app in Ds. rewrite andb_false_r in Ds. discriminate.
+    - rewrite (good_is_known _ Gpv) in Ds. cbn [negb tmpl_ds] in Ds.
+      rewrite !diag_ok_app in Ds. rewrite andb_false_r in Ds. discriminate. }
+  destruct (fold_left step parts st0) as [[[buf known] mk] fds] eqn:Ef.
+  assert (Dfin : diag_ok (tmpl_ds (fold_left step parts st0)) = true).
+  { rewrite Ef. simpl. injection E as _ <-. exact D. }
+  destruct (fold_inv step tmpl_ds tmpl_inv (fun st it Ds => proj1 (Hstep st it Ds)) parts) with (st := st0)
+    as [_ Pf]; [|exact Dfin|].
+  - intros st it Hin Ds Pst. apply (proj2 (Hstep st it Ds)); [|exact Pst].
+    rewrite forallb_Forall in Ok. rewrite Forall_forall in Ok. apply (Ok it Hin).
+  - rewrite Ef in Pf. simpl in Pf. rewrite (Pf eq_refl) in E. cbn [negb] in E.
+    injection E as <- <-. apply good_with_marks. reflexivity.
+Qed.
+
+(* ---- template join ------------------------------------------------------------------------- *)
+Lemma for_shape f c anon kv vv coll key vl cond grp v ds :
+  ev_ (S f) c anon (EFor kv vv coll key vl cond grp) = (v, ds) ->
+  type_of v = TDyn -> is_known v = false.
+Proof.
+  intros E T. cbn [eval_with] in E.
+  repeat destruct_head E.
+  all: injection E as <- <-; rewrite ?is_known_with_marks, ?is_known_with_same_marks; try reflexivity;
+       rewrite ?type_of_with_marks in T; discriminate T.
+Qed.
+
+Definition join_ds (st : (list Z * marks * list diag) + (val * list diag)) : list diag :=
+  match st with inl (_, _, ds) => ds | inr (_, ds) => ds end.
+Definition join_inv (st : (list Z * marks * list diag) + (val * list diag)) : Prop :=
+  match st with inl _ => True | inr _ => False end.
+
+Lemma kiko_join f te : KI f -> forall c anon v ds,
+  ctx_good c -> anon_good anon -> expr_ok (is_some anon) (EJoin te) = true ->
+  ev_ (S f) c anon (EJoin te) = (v, ds) -> diag_ok ds = true -> good v = true.
+Proof.
+  intros IH c anon v ds C A Ok E D. cbn [eval_with] in E. cbn [expr_ok] in Ok.
+  apply andb_true_iff in Ok as [Ok IsFor].
+  destruct (ev_ f c anon te) as [tv tds] eqn:Et.
+  assert (Dt : diag_ok tds = true -> good tv = true /\ type_of tv <> TDyn).
+  { intros Dt. pose proof (IH c anon te tv tds C A Ok Et Dt) as G. split; [exact G|].
+    intros T. destruct te; try discriminate IsFor. destruct f as [|f'].
+    - simpl in Et. injection Et as <- <-. discriminate.
+    - pose proof (for_shape _ _ _ _ _ _ _ _ _ _ _ _ Et T) as K. rewrite (good_is_known _ G) in K. discriminate. }
+  destruct (ty_eqb (type_of tv) TDyn) eqn:Ty.
+  { exfalso. injection E as _ <-. destruct (Dt D) as [_ N]. apply ty_eqb_eq in Ty. contradiction. }
+  destruct (negb (is_known tv)) eqn:Kt.
+  { exfalso. injection E as _ <-. destruct (Dt D) as [G _]. rewrite (good_is_known _ G) in Kt. discriminate. }
+  destruct (unmark tv) as [tu tm] eqn:Ut.
+  destruct tu as [| | | | | | | |vs| |]; try (dead E D).
+  match type of E with
+  | context [fold_left ?stp vs ?init] => set (step := stp) in *; set (st0 := init) in *
+  end.
+  assert (Hstep : forall st x, diag_ok (join_ds (step st x)) = true ->
+            diag_ok (join_ds st) = true /\ (good x = true -> join_inv st -> join_inv (step st x))).
+  { intros [[[buf am] sds]|[rv rds]] x Ds; unfold step in Ds |- *; [|split; [exact Ds|auto]].
+    assert (D0 : diag_ok sds = true).
+    { destruct (is_null x); [cbn [join_ds] in Ds; rewrite diag_ok_app in Ds; apply andb_true_iff in Ds as [Ds _]; exact Ds|].
+      destruct (ty_eqb (type_of x) TDyn); [exact Ds|].
+      destruct (conv x TStr) as [sv| |];
+        try (cbn [join_ds] in Ds; rewrite diag_ok_app in Ds; apply andb_true_iff in Ds as [Ds _]; exact Ds).
+      destruct (negb (is_known x)); [exact Ds|]. destruct (unmark sv) as [su sm].
+      destruct su; try exact Ds;
+        cbn [join_ds] in Ds; rewrite diag_ok_app in Ds; apply andb_true_iff in Ds as [Ds _]; exact Ds. }
+    split; [exact D0|]. intros Gx _.
+    destruct (is_null x) eqn:Nx; [exact I|].
+    destruct (ty_eqb (type_of x) TDyn) eqn:Tx.
+    { apply ty_eqb_eq in Tx. rewrite (good_dyn_is_null _ Gx Tx) in Nx. discriminate. }
+    destruct (conv x TStr) as [sv| |] eqn:Es; try exact I.
+    rewrite (good_is_known _ Gx). cbn [negb].
+    destruct (unmark sv) as [su sm]. destruct su; exact I. }
+  destruct (fold_left step vs st0) as [[[buf am] fds]|[rv rds]] eqn:Ef.
+  - injection E as <- <-. apply good_with_marks. reflexivity.
+  - exfalso.
+    assert (Dfin : diag_ok (join_ds (fold_left step vs st0)) = true).
+    { rewrite Ef. simpl. injection E as _ <-. exact D. }
+    destruct (fold_inv step join_ds join_inv (fun st it Ds => proj1 (Hstep st it Ds)) vs) with (st := st0)
+      as [D0 Pf]; [|exact Dfin|].
+    + intros st it Hin Ds Pst. apply (proj2 (Hstep st it Ds)); [|exact Pst].
+      unfold st0 in D0. 
+      destruct (Dt ltac:(idtac)) as [G _].
+Abort.
